@@ -5,9 +5,15 @@
    and src/interop/mod.rs: a view RESOLVES (row, column) to a position in the flat storage of the
    matrix at the bottom of the stack, or is absent, or panics); Proofs/C12P.v (well-formedness
    `wf`, `inside`, `mirror`), Proofs/C12Partition.v (`chain_b`, `intervals`, `grid_slices`,
-   `grid_parts`, `bad_list`, `stack`). *)
+   `grid_parts`, `bad_list`, `stack`), Proofs/C12Release.v (session 3: `partition_release`, the
+   transcription of Matrix::partition without overflow checks, equals `partition` on every
+   matrix that can exist, so the partition theorems hold in both build profiles; `data_layout`
+   of a stack of views and what `&S` / `&mut S` answer instead).
+   Mapped views: MatrixMap is crate-private (its only user is Display for RecordMatrix); no public
+   API hands out a lazily mapped matrix view, MatrixView::map / map_with_index build a new Matrix.
+   The model node VMap (index-transparent) is covered by C12_contract. *)
 From Coq Require Import List ZArith NArith Bool Arith Sorted.
-From EasyML Require Import Base.Sx Model.Shape Model.MatrixViews Proofs.C12P Proofs.C12Partition Proofs.C12Tensor.
+From EasyML Require Import Base.Sx Model.Shape Model.MatrixViews Proofs.C12P Proofs.C12Partition Proofs.C12Tensor Proofs.C12Release.
 From EasyML Require Model.Views Proofs.C02P Proofs.C02Inj.
 Import ListNotations.
 Open Scope N_scope.
@@ -177,6 +183,58 @@ Proof.
   - right. exists [], 2, 1, []. split; reflexivity.
 Qed.
 
+
+(* ---- session 3 ---- *)
+(* BOTH BUILD PROFILES: `partition_release` transcribes Matrix::partition as compiled without
+   overflow checks (the two subtractions wrap; a decreasing list is then stopped by split_at_mut
+   panicking on a length beyond what is left, or by Vec::with_capacity panicking with a capacity
+   overflow).  On every matrix that can exist — at most isize::MAX stored elements, fewer than
+   2^59 rows (the per-part Vec of row slices must be allocatable, in either profile) — it is the
+   same function as `partition`, so every theorem above holds for both profiles. *)
+Theorem C12_partition_profiles_agree : forall rows cols rp cp, 1 <= rows ->
+  rows * cols <= isize_max_bytes -> rows <= part_rows_capacity_max ->
+  partition_release rows cols rp cp = partition rows cols rp cp.
+Proof. exact partition_release_eq. Qed.
+
+(* spelled out for the release profile: strictly ascending lists within 0..=len are accepted and
+   give the grid of parts; a list with a decrease or an entry > len panics, nothing is returned *)
+Theorem C12_partition_release_accepts_rejects : forall rows cols rp cp, 1 <= rows ->
+  rows * cols <= isize_max_bytes -> rows <= part_rows_capacity_max ->
+  (StronglySorted N.lt rp -> Forall (fun x => x <= rows) rp ->
+   StronglySorted N.lt cp -> Forall (fun x => x <= cols) cp ->
+   partition_release rows cols rp cp = Ok (grid_parts rows cols rp cp)) /\
+  (bad_list rows rp \/ bad_list cols cp -> partition_release rows cols rp cp = Panic).
+Proof. exact partition_release_accepts_rejects. Qed.
+
+(* data_layout (the memory-order hint of MatrixRef): ranges, mapped views, boxes and the tensor
+   round trip pass their source's hint on; a stack is RowMajor over a matrix or a partition part,
+   Other as soon as the first non-transparent view on the way down is a reversal, and over a
+   tensor view it is what the tensor's own layout says about (rows name, columns name) *)
+Theorem C12_data_layout : forall v,
+  data_layout v =
+  match bottom v with
+  | VReverse _ _ _ => LOther
+  | VOverTensor c => layout_of_tensor c
+  | _ => LRowMajor
+  end.
+Proof. exact data_layout_spec. Qed.
+
+(* AS WRITTEN, `impl MatrixRef for &S` / `&mut S` answer RowMajor without asking S (the tensor
+   counterparts forward): the hint through a reference is the view's own hint only when that is
+   RowMajor — see notes/C11_C12.md, observation O4 *)
+Theorem C12_data_layout_through_reference : forall v,
+  data_layout_through_reference v = data_layout v <-> data_layout v = LRowMajor.
+Proof. exact data_layout_reference_agrees_iff. Qed.
+
+Example C12_nonvacuous_session3 :
+  partition_release 3 4 [1] [2; 3] = partition 3 4 [1] [2; 3] /\
+  partition_release 3 4 [1; 3; 2] [] = Panic /\ partition_release 3 4 [] [4; 5] = Panic /\
+  3 * 4 <= isize_max_bytes /\ 3 <= part_rows_capacity_max /\
+  data_layout (VReverse true false (VMatrix 3 4)) = LOther /\
+  data_layout_through_reference (VReverse true false (VMatrix 3 4)) = LRowMajor /\
+  data_layout (range_from (VMatrix 3 4) (mkIR 0 2) (mkIR 1 2)) = LRowMajor.
+Proof. repeat split; try reflexivity; try (vm_compute; discriminate). Qed.
+
 Print Assumptions C12_contract.
 Print Assumptions C12_contract_over_tensor_views.
 Print Assumptions C12_present_iff_inside.
@@ -192,3 +250,7 @@ Print Assumptions C12_quadrants.
 Print Assumptions C12_write_through.
 Print Assumptions C12_write_through_part.
 Print Assumptions C12_interop.
+Print Assumptions C12_partition_profiles_agree.
+Print Assumptions C12_partition_release_accepts_rejects.
+Print Assumptions C12_data_layout.
+Print Assumptions C12_data_layout_through_reference.
